@@ -25,7 +25,7 @@ BYFILE = {'in_toto/verifylib.go': ['C01', 'C05'], 'in_toto/model.go': ['C12', 'C
 
 
 # the checks whose generators drive the function end to end come first (the pins only say "this function changed")
-BYFUNC = {'InTotoVerify': ['C05', 'C08', 'C09'], 'InTotoVerifyWithDirectory': ['C05', 'C08', 'C09'], 'GetSummaryLink': ['C05', 'C08'],
+BYFUNC = {'InTotoVerify': ['C01', 'C05', 'C08', 'C09'], 'InTotoVerifyWithDirectory': ['C01', 'C05', 'C08', 'C09'], 'GetSummaryLink': ['C05', 'C08'],
           'VerifyLinkSignatureThesholds': ['C02', 'C05'], 'LoadLinksForLayout': ['C02', 'C05'], 'RunInspections': ['C09'],
           'VerifyArtifacts': ['C03', 'C09'], 'verifyMatchRule': ['C03', 'C09'], 'ReduceStepsMetadata': ['C05'], 'VerifySublayouts': ['C08'],
           'SubstituteParameters': ['C18'], 'VerifyLayoutExpiration': ['C06'], 'VerifyLayoutSignatures': ['C01'], 'LoadLayoutCertificates': ['C01', 'C07'],
@@ -84,7 +84,7 @@ def run_one(args):
     checks = list(dict.fromkeys(BYFUNC.get(mut['func'], []) + pinmap.get(key, []) + ([] if mut['file'].startswith('cmd/') else BYFILE.get(mut['file'], []))))
     if mut['file'].startswith('cmd/'):
         checks = ['C20']
-    checks = checks[:3]
+    checks = checks[:4]
     res['checks'] = {}
     best = 'not-noticed'
     for c in checks:
